@@ -144,7 +144,7 @@ func init() {
 	})
 
 	engine.RegisterCheck("C07", func(r *engine.Run) {
-		r.Rule = "SEQ: every sequence up to the stated depth over {create, delete, rename, re-create, batch (ids and references shared with the survivor dataset S), garbage collection, restart} on names A,B next to a preloaded survivor; after every history the dataset list, latest views, feeds, unscoped and point-in-time lookups, relationship queries are compared with a reference model that only knows live dataset incarnations; raw key scans check that GC removes exactly the deleted datasets' keys and that dataset ids are never reused. CRASH: real SIGKILL at every durable commit and every named point inside create/rename/delete/GC; the recovered store must be observably 'not done' or 'done'"
+		r.Rule = "SEQ: every sequence up to the stated depth over {create, delete, rename, re-create, batch (ids and references shared with the survivor dataset S), garbage collection, restart, a write through a Dataset object obtained before its dataset was deleted, a paged relationship query started before and continued after a delete} on names A,B next to a preloaded survivor; after every history the dataset list, latest views, feeds, unscoped and point-in-time lookups, relationship queries are compared with a reference model that only knows live dataset incarnations; raw key scans check that GC removes exactly the deleted datasets' keys and that dataset ids are never reused. CRASH: real SIGKILL at every durable commit and every named point inside create/rename/delete/GC; the recovered store must be observably 'not done' or 'done'"
 		r.Assumptions = []string{"badger transactions are linearizable and commits atomic w.r.t. process kill", "the meta-entities in core.Dataset are outside this property (C19)"}
 		pool := model.Pool(0)
 		pi := func(n string) int { return model.PoolIndex(pool, n) }
@@ -156,6 +156,10 @@ func init() {
 			{K: "batch", DS: "B", Ents: []VEnt{{"e1", pi("dv1")}}},
 			{K: "batch", DS: "S", Ents: []VEnt{{"e1", pi("v2")}}},
 			{K: "gc"}, {K: "restart"},
+			// handles obtained before a delete and used after it
+			{K: "batch", DS: "A", Ents: []VEnt{{"e1", pi("r23")}}},
+			{K: "stalebatch", DS: "A", Ents: []VEnt{{"e1", pi("s")}, {"e4", pi("v1")}}},
+			{K: "qstart", DS: "A"}, {K: "qcont"},
 		}
 		params, _ := json.Marshal(DsmParams{Obs: []string{"c07"}, Names: []string{"A", "B"}, IDs: vIDs})
 		depth, budget := 6, 120
